@@ -90,7 +90,9 @@ void handler_fire_stanza(xmpp_conn_t *conn, xmpp_stanza_t *stanza)
             ret = ((xmpp_handler)(item->handler))(conn, stanza, item->userdata);
             next = item->next;
             if (!ret) {
-                /* handler is one-shot, so delete it */
+                /* handler is one-shot, so delete it; the handler may have
+                   deleted the first item of the list: read the head again */
+                head = (xmpp_handlist_t *)hash_get(conn->id_handlers, id);
                 head_old = head;
                 _handler_item_remove(&head, item);
                 if (head != head_old) {
